@@ -102,7 +102,7 @@ class ExcelArrayOps(object):
         if len(value) == 1 and len(self.arr) != 1:
             # a one-element array combines like a scalar ...
             return [value[0] for i in range(len(self.arr))]
-        if len(self.arr) == 1 and len(value) > 1:
+        if len(self.arr) == 1 and len(value) != 1:
             # ... on the left as well as on the right
             self.arr = [self.arr[0] for i in range(len(value))]
         return value
